@@ -484,7 +484,7 @@ func (m *Dense) Exp(a Matrix) {
 	}
 
 	m.reuseAsNonZeroed(r, r)
-	aU, _ := untransposeExtract(a)
+	aU, aTrans := untransposeExtract(a)
 	m.checkOverlapMatrix(aU)
 	if r == 1 {
 		m.mat.Data[0] = math.Exp(a.At(0, 0))
@@ -510,7 +510,15 @@ func (m *Dense) Exp(a Matrix) {
 	}
 
 	a1 := m
-	a1.Copy(a)
+	if m == aU && aTrans {
+		// Copy does not accept the transpose of its receiver.
+		tmp := getDenseWorkspace(r, r, false)
+		tmp.Copy(a)
+		a1.Copy(tmp)
+		putDenseWorkspace(tmp)
+	} else {
+		a1.Copy(a)
+	}
 	v := getDenseWorkspace(r, r, true)
 	vraw := v.RawMatrix()
 	n := r * r
@@ -525,7 +533,7 @@ func (m *Dense) Exp(a Matrix) {
 	a2 := getDenseWorkspace(r, r, false)
 	defer putDenseWorkspace(a2)
 
-	n1 := Norm(a, 1)
+	n1 := Norm(a1, 1)
 	for i, t := range pade {
 		if n1 > t.theta {
 			continue
@@ -648,7 +656,7 @@ func (m *Dense) Pow(a Matrix, n int) {
 	}
 
 	m.reuseAsNonZeroed(r, c)
-	aU, _ := untransposeExtract(a)
+	aU, aTrans := untransposeExtract(a)
 	m.checkOverlapMatrix(aU)
 
 	// Take possible fast paths.
@@ -660,6 +668,14 @@ func (m *Dense) Pow(a Matrix, n int) {
 		}
 		return
 	case 1:
+		if m == aU && aTrans {
+			// Copy does not accept the transpose of its receiver.
+			tmp := getDenseWorkspace(r, c, false)
+			tmp.Copy(a)
+			m.Copy(tmp)
+			putDenseWorkspace(tmp)
+			return
+		}
 		m.Copy(a)
 		return
 	case 2:
@@ -808,7 +824,7 @@ func (m *Dense) RankOne(a Matrix, alpha float64, x, y Vector) {
 		panic(ErrShape)
 	}
 
-	aU, _ := untransposeExtract(a)
+	aU, aTrans := untransposeExtract(a)
 	m.checkOverlapMatrix(aU)
 
 	var xmat, ymat blas64.Vector
@@ -828,6 +844,14 @@ func (m *Dense) RankOne(a Matrix, alpha float64, x, y Vector) {
 		m.checkOverlap(generalFromVector(ymat, r, c))
 	} else {
 		fast = false
+	}
+
+	if m == aU && aTrans {
+		// a is the transpose of the receiver.
+		m.reuseAsNonZeroed(ar, ac)
+		var restore func()
+		m, restore = m.isolatedWorkspace(a)
+		defer restore()
 	}
 
 	if fast {
